@@ -379,11 +379,17 @@ func c19Steps(src string, count func(string), violation func(c interface{}, deta
 			w.Count("distinct_words_expanded", 1)
 			for _, m := range c19Modes {
 				what = fmt.Sprintf("Expand (mode %d) of %s", m, wdump)
-				env := interp.NewExecEnv("sh", "p1", "p2")
-				_, e := env.Expand(wd, m)
-				w.Count("evaluations", 1)
-				if !documentedError(e) {
-					w.Violation("", map[string]string{"source": src, "step": what}, fmt.Sprintf("%s returns an undocumented error type %T: %v", what, e, e))
+				for _, args := range [][]string{{"p1", "p2"}, nil} {
+					env := interp.NewExecEnv("sh", args...)
+					if args == nil {
+						what += " (no positional parameters, nounset)"
+						env.Opts |= interp.NoUnset
+					}
+					_, e := env.Expand(wd, m)
+					w.Count("evaluations", 1)
+					if !documentedError(e) {
+						w.Violation("", map[string]string{"source": src, "step": what}, fmt.Sprintf("%s returns an undocumented error type %T: %v", what, e, e))
+					}
 				}
 			}
 		}
